@@ -17,6 +17,8 @@ import (
 	"sort"
 	"strings"
 	"sync"
+	"sync/atomic"
+	"time"
 	"unsafe"
 
 	"github.com/rpcpool/yellowstone-faithful/zzverif/explore"
@@ -377,7 +379,14 @@ func (s *Sched) spawn(f func(), name string) *thread {
 func Go(f func()) {
 	s := Active()
 	if s == nil {
-		go f()
+		// pass-through: a plain goroutine, but tracked, so that a scheduled execution never starts
+		// while free-running goroutines of instrumented code are still alive (they would perform
+		// shim operations without being managed threads)
+		atomic.AddInt64(&freeLive, 1)
+		go func() {
+			defer atomic.AddInt64(&freeLive, -1)
+			f()
+		}()
 		return
 	}
 	if s.aborting {
@@ -398,6 +407,9 @@ type Options struct {
 
 var runMu sync.Mutex
 
+// freeLive counts goroutines started by Go in pass-through mode that have not finished yet.
+var freeLive int64
+
 // Run executes body as thread 0 under the scheduler driven by c and returns when every
 // managed goroutine has exited.
 func Run(c *explore.Ctx, opt Options, body func()) *Sched {
@@ -406,6 +418,13 @@ func Run(c *explore.Ctx, opt Options, body func()) *Sched {
 	}
 	runMu.Lock()
 	defer runMu.Unlock()
+	for i := 0; atomic.LoadInt64(&freeLive) > 0; i++ {
+		if i > 100000 {
+			panic("vsched.Run: free-running goroutines of instrumented code are still alive")
+		}
+		runtime.Gosched()
+		time.Sleep(50 * time.Microsecond)
+	}
 	if opt.Horizon <= 0 {
 		opt.Horizon = 20000
 	}
